@@ -64,7 +64,9 @@ class DirectoryMatcher:
         """
         if dir_path == "/":
             return self._check_root_match(dir_path, path_str)
-        if path_str.startswith(dir_path):
+        # The rule governs the directory itself and what is below it, not every path that
+        # merely starts with the same characters ("src" must not govern "src2/x.py")
+        if path_str == dir_path or path_str.startswith(dir_path.rstrip("/") + "/"):
             depth = len(dir_path.split("/"))
             return True, depth
         return False, -1
